@@ -1133,3 +1133,68 @@ pub fn gen_await(rng: &mut Rng, never: bool) -> Program {
     }
     p
 }
+
+// ------------------------------------------------------------------------------------------
+// thread_local! / lazy_static! family (C17)
+
+pub fn gen_tls_lazy(rng: &mut Rng) -> Program {
+    let mut vs = ValueSrc::new();
+    let spawned = rng.range(1, 3);
+    let nt = spawned + 1;
+    let with_atomic = rng.chance(1, 2);
+    let with_mutex = rng.chance(1, 4);
+    let mut p = Program { atomics: if with_atomic { vec![0] } else { vec![] }, n_mutex: with_mutex as u8, ..Default::default() };
+    p.threads = vec![Vec::new(); nt];
+    let use_tls = rng.chance(3, 4);
+    let use_lazy = !use_tls || rng.chance(2, 3);
+    let mut bodies: Vec<Vec<Op>> = vec![Vec::new(); nt];
+    for t in 0..nt {
+        let n = rng.range(1, 4);
+        for _ in 0..n {
+            let mut kinds: Vec<u8> = Vec::new();
+            if use_tls {
+                kinds.extend([0, 0, 1]);
+            }
+            if use_lazy {
+                kinds.extend([2, 2, 2]);
+            }
+            if with_atomic {
+                kinds.extend([3, 4]);
+            }
+            if with_mutex {
+                kinds.push(5);
+            }
+            let op = match *rng.pick(&kinds) {
+                0 => Op::TlsWith { k: rng.below(2) as u8 },
+                1 => Op::TlsNested { k: rng.below(2) as u8, j: rng.below(2) as u8 },
+                2 => Op::LazyGet { k: rng.below(2) as u8 },
+                3 => Op::Load { a: 0, o: MO::Sc },
+                4 => Op::Store { a: 0, v: vs.constant(), o: MO::Sc },
+                _ => {
+                    bodies[t].push(Op::Lock { m: 0 });
+                    bodies[t].push(Op::LazyGet { k: 0 });
+                    Op::Unlock { m: 0 }
+                }
+            };
+            bodies[t].push(op);
+        }
+    }
+    for t in 1..nt {
+        p.threads[0].push(Op::Spawn { t: t as u8 });
+    }
+    p.threads[0].extend(std::mem::take(&mut bodies[0]));
+    for t in 1..nt {
+        // lazy statics are torn down when main returns: threads that may still use them are joined
+        let has_lazy = bodies.iter().flatten().any(|o| matches!(o, Op::LazyGet { .. })) || p.threads[0].iter().any(|o| matches!(o, Op::LazyGet { .. }));
+        if use_lazy || has_lazy || rng.chance(5, 6) {
+            p.threads[0].push(Op::Join { t: t as u8 });
+        }
+    }
+    if use_lazy && rng.chance(1, 2) {
+        p.threads[0].push(Op::LazyGet { k: rng.below(2) as u8 });
+    }
+    for t in 1..nt {
+        p.threads[t] = std::mem::take(&mut bodies[t]);
+    }
+    p
+}
